@@ -501,8 +501,8 @@ theorem mdMapELeaves_char (f : β → Except E γ) (unm : E) : ∀ (xs : List (N
     (∀ x ∈ xs, NArr.HasShape [] x) →
     (∀ ys, mdMapELeaves f unm xs = .ok ys →
       ys.length = xs.length ∧ (∀ y ∈ ys, NArr.HasShape [] y) ∧
-      ∀ i v, xs[i]? = some (.leaf v) → ∃ w, f v = .ok w ∧ ys[i]? = some (.leaf w)) ∧
-    (∀ e, mdMapELeaves f unm xs = .error e → ∃ i v, xs[i]? = some (.leaf v) ∧ f v = .error e)
+      ∀ (i : Nat) v, xs[i]? = some (NArr.leaf v) → ∃ w, f v = .ok w ∧ ys[i]? = some (NArr.leaf w)) ∧
+    (∀ e, mdMapELeaves f unm xs = .error e → ∃ (i : Nat) (v : β), xs[i]? = some (NArr.leaf v) ∧ f v = .error e)
   | [], _ => by
     refine ⟨?_, ?_⟩
     · intro ys h; simp [mdMapELeaves] at h; subst h; simp
@@ -550,13 +550,20 @@ theorem mdMapELeaves_char (f : β → Except E γ) (unm : E) : ∀ (xs : List (N
             exact ⟨w', hw, by simpa using hy⟩
 
 theorem cellAt_leafList (xs : List (NArr β)) (hx : ∀ x ∈ xs, NArr.HasShape [] x) (p : List Nat) (v : β) :
-    cellAt (.node xs) p = some v ↔ ∃ i, p = [i] ∧ xs[i]? = some (.leaf v) := by
+    cellAt (.node xs) p = some v ↔ ∃ i, p = [i] ∧ xs[i]? = some (NArr.leaf v) := by
   cases p with
   | nil => simp [cellAt]
   | cons i is =>
     simp only [cellAt]
     cases hxi : xs[i]? with
-    | none => simp
+    | none =>
+      constructor
+      · intro h; simp at h
+      · rintro ⟨j, hj, hv⟩
+        simp only [List.cons.injEq] at hj
+        obtain ⟨rfl, _⟩ := hj
+        rw [hxi] at hv
+        simp at hv
     | some x =>
       obtain ⟨hi, hxe⟩ := List.getElem?_eq_some_iff.1 hxi
       have hm : x ∈ xs := by rw [← hxe]; exact List.getElem_mem _
@@ -566,16 +573,21 @@ theorem cellAt_leafList (xs : List (NArr β)) (hx : ∀ x ∈ xs, NArr.HasShape 
       | leaf u =>
         cases is with
         | nil =>
-          simp only [cellAt, Option.some.injEq, List.cons.injEq, and_true]
           constructor
-          · intro h; exact ⟨i, rfl, by rw [hxi, h]⟩
-          · rintro ⟨j, rfl, hj⟩
-            rw [hxi] at hj
-            simpa using hj
+          · intro h
+            simp only [cellAt, Option.some.injEq] at h
+            subst h
+            exact ⟨i, rfl, hxi⟩
+          · rintro ⟨j, hj, hv⟩
+            simp only [List.cons.injEq, and_true] at hj
+            subst hj
+            rw [hxi] at hv
+            simp only [Option.some.injEq, NArr.leaf.injEq] at hv
+            simp [cellAt, hv]
         | cons k ks =>
-          simp only [cellAt, List.cons.injEq, false_iff, not_exists, not_and]
-          intro j hj
-          simp at hj
+          constructor
+          · intro h; simp [cellAt] at h
+          · rintro ⟨j, hj, _⟩; simp at hj
 
 /-- **`md_map(f, array)` with a raising `f` on a regular array**: either every cell is mapped and the
 shape is kept, or the reported exception is that of some cell. -/
@@ -629,8 +641,8 @@ theorem mdMapE_char (f : β → Except E γ) (lte unm : E) : ∀ (dims : List Na
     have key : ∀ (l : List (NArr β)), (∀ x ∈ l, NArr.HasShape (m :: ms) x) →
         (∀ r, mdMapENodes f lte unm l = .ok r →
           r.length = l.length ∧ (∀ y ∈ r, NArr.HasShape (m :: ms) y) ∧
-          ∀ i x, l[i]? = some x → ∃ y, r[i]? = some y ∧ CellsOK f x y) ∧
-        (∀ e, mdMapENodes f lte unm l = .error e → ∃ i x, l[i]? = some x ∧ CellFails f x e) := by
+          ∀ (i : Nat) x, l[i]? = some x → ∃ y, r[i]? = some y ∧ CellsOK f x y) ∧
+        (∀ e, mdMapENodes f lte unm l = .error e → ∃ (i : Nat) (x : NArr β), l[i]? = some x ∧ CellFails f x e) := by
       intro l
       induction l with
       | nil =>
@@ -728,5 +740,260 @@ theorem mdMapE_char (f : β → Except E γ) (lte unm : E) : ∀ (dims : List Na
               obtain ⟨y, hy, hc⟩ := hcell i x' hxi
               obtain ⟨w, hw, hcw⟩ := hc is v hv
               exact ⟨w, hw, by simp [cellAt, hy, hcw]⟩
+
+/-! ## cells in iteration order -/
+
+mutual
+theorem cellAt_of_mem_cells : ∀ (a : NArr β) (p : List Nat) (v : β), (p, v) ∈ NArr.cells a → cellAt a p = some v
+  | .leaf u, p, v, h => by
+    simp only [NArr.cells, List.mem_singleton, Prod.mk.injEq] at h
+    obtain ⟨rfl, rfl⟩ := h
+    rfl
+  | .node xs, p, v, h => by
+    simp only [NArr.cells] at h
+    obtain ⟨i, p', hp, x, hx, hc⟩ := cellAt_of_mem_cellsFrom xs 0 p v h
+    subst hp
+    simp [cellAt, hx, hc]
+theorem cellAt_of_mem_cellsFrom : ∀ (xs : List (NArr β)) (k : Nat) (p : List Nat) (v : β),
+    (p, v) ∈ NArr.cellsFrom k xs →
+    ∃ (i : Nat) (p' : List Nat), p = (k + i) :: p' ∧ ∃ x, xs[i]? = some x ∧ cellAt x p' = some v
+  | [], k, p, v, h => by simp [NArr.cellsFrom] at h
+  | x :: xs, k, p, v, h => by
+    simp only [NArr.cellsFrom, List.mem_append, List.mem_map] at h
+    rcases h with ⟨⟨p', v'⟩, hm, he⟩ | h
+    · simp only [Prod.mk.injEq] at he
+      obtain ⟨rfl, rfl⟩ := he
+      exact ⟨0, p', by simp, x, by simp, cellAt_of_mem_cells x p' v' hm⟩
+    · obtain ⟨i, p', hp, y, hy, hc⟩ := cellAt_of_mem_cellsFrom xs (k + 1) p v h
+      exact ⟨i + 1, p', by rw [hp]; congr 1; omega, y, by simpa using hy, hc⟩
+end
+
+mutual
+theorem mem_cells_of_cellAt : ∀ (a : NArr β) (p : List Nat) (v : β), cellAt a p = some v → (p, v) ∈ NArr.cells a
+  | .leaf u, [], v, h => by simp [cellAt] at h; simp [NArr.cells, h]
+  | .leaf u, _ :: _, v, h => by simp [cellAt] at h
+  | .node xs, [], v, h => by simp [cellAt] at h
+  | .node xs, i :: is, v, h => by
+    simp only [cellAt] at h
+    cases hx : xs[i]? with
+    | none => simp [hx] at h
+    | some x =>
+      simp only [hx] at h
+      simp only [NArr.cells]
+      have := mem_cellsFrom_of_cellAt xs 0 i is v x hx h
+      simpa using this
+theorem mem_cellsFrom_of_cellAt : ∀ (xs : List (NArr β)) (k i : Nat) (is : List Nat) (v : β) (x : NArr β),
+    xs[i]? = some x → cellAt x is = some v → ((k + i) :: is, v) ∈ NArr.cellsFrom k xs
+  | [], k, i, is, v, x, hx, _ => by simp at hx
+  | y :: ys, k, 0, is, v, x, hx, hc => by
+    simp only [List.getElem?_cons_zero, Option.some.injEq] at hx
+    subst hx
+    simp only [NArr.cellsFrom, List.mem_append, List.mem_map]
+    exact Or.inl ⟨(is, v), mem_cells_of_cellAt y is v hc, by simp⟩
+  | y :: ys, k, i + 1, is, v, x, hx, hc => by
+    simp only [List.getElem?_cons_succ] at hx
+    simp only [NArr.cellsFrom, List.mem_append]
+    refine Or.inr ?_
+    have := mem_cellsFrom_of_cellAt ys (k + 1) i is v x hx hc
+    have e : k + 1 + i = k + (i + 1) := by omega
+    rw [e] at this
+    exact this
+end
+
+theorem mem_values_iff (a : NArr β) (v : β) : v ∈ NArr.values a ↔ ∃ p, cellAt a p = some v := by
+  simp only [NArr.values, List.mem_map]
+  constructor
+  · rintro ⟨⟨p, w⟩, hm, rfl⟩; exact ⟨p, cellAt_of_mem_cells a p w hm⟩
+  · rintro ⟨p, hp⟩; exact ⟨(p, v), mem_cells_of_cellAt a p v hp, rfl⟩
+
+/-! ## the lockstep rounds of `_MdSeqMap` -/
+
+theorem nextAt_ok_iff (j : Nat) (t : Trace ρ (Exc ε)) (r : ρ) : nextAt j t = .ok r ↔ t.out[j]? = some r := by
+  unfold nextAt
+  cases t.out[j]? <;> simp
+
+theorem nextAt_error_iff (j : Nat) (t : Trace ρ (Exc ε)) (eo : Option (Exc ε)) :
+    nextAt j t = .error eo ↔ t.out[j]? = none ∧ t.fin = eo := by
+  unfold nextAt
+  cases t.out[j]? <;> simp
+
+section rounds
+variable (mk : NArr ρ → Except (Exc ε) ο) (traces : NArr (Trace ρ (Exc ε)))
+
+/-- round `j` on a regular array of generators: it succeeds with every cell's `j`-th value in place … -/
+theorem roundAt_ok {dims : List Nat} (hs : NArr.HasShape dims traces) (hd : dims ≠ []) {j : Nat} {result : NArr ρ}
+    (h : roundAt traces j = .ok result) :
+    NArr.HasShape dims result ∧
+      ∀ p t, cellAt traces p = some t → ∃ r, t.out[j]? = some r ∧ cellAt result p = some r := by
+  obtain ⟨hsh, hc⟩ := (mdMapE_char (nextAt j) _ _ dims traces hs hd).1 result h
+  refine ⟨hsh, ?_⟩
+  intro p t ht
+  obtain ⟨r, hr, hcr⟩ := hc p t ht
+  exact ⟨r, (nextAt_ok_iff j t r).1 hr, hcr⟩
+
+/-- … or ends the way some cell's generator ends that has no `j`-th value -/
+theorem roundAt_error {dims : List Nat} (hs : NArr.HasShape dims traces) (hd : dims ≠ []) {j : Nat}
+    {eo : Option (Exc ε)} (h : roundAt traces j = .error eo) :
+    ∃ p t, cellAt traces p = some t ∧ t.out[j]? = none ∧ t.fin = eo := by
+  obtain ⟨p, t, ht, hf⟩ := (mdMapE_char (nextAt j) _ _ dims traces hs hd).2 eo h
+  exact ⟨p, t, ht, (nextAt_error_iff j t eo).1 hf⟩
+
+theorem zipRounds_length_le : ∀ (fuel j : Nat), (zipRounds mk traces fuel j).out.length ≤ fuel
+  | 0, _ => by simp [zipRounds]
+  | fuel + 1, j => by
+    simp only [zipRounds]
+    cases hr : roundAt traces j with
+    | error eo => cases eo <;> simp
+    | ok result =>
+      simp only []
+      cases hm : mk result with
+      | error e => simp
+      | ok o =>
+        have := zipRounds_length_le fuel (j + 1)
+        simp only [Trace.cons, List.length_cons]
+        omega
+
+/-- every value yielded is `mk` of a successful round -/
+theorem zipRounds_out : ∀ (fuel j i : Nat) (o : ο), (zipRounds mk traces fuel j).out[i]? = some o →
+    ∃ result, roundAt traces (j + i) = .ok result ∧ mk result = .ok o
+  | 0, j, i, o, h => by simp [zipRounds] at h
+  | fuel + 1, j, i, o, h => by
+    simp only [zipRounds] at h
+    cases hr : roundAt traces j with
+    | error eo => cases eo <;> simp [hr] at h
+    | ok result =>
+      simp only [hr] at h
+      cases hm : mk result with
+      | error e => simp [hm] at h
+      | ok o' =>
+        simp only [hm, Trace.cons] at h
+        cases i with
+        | zero =>
+          simp only [List.getElem?_cons_zero, Option.some.injEq] at h
+          subst h
+          exact ⟨result, by simpa using hr, hm⟩
+        | succ i =>
+          simp only [List.getElem?_cons_succ] at h
+          obtain ⟨res, h1, h2⟩ := zipRounds_out fuel (j + 1) i o h
+          have e : j + 1 + i = j + (i + 1) := by omega
+          rw [e] at h1
+          exact ⟨res, h1, h2⟩
+
+/-- how the iteration ends -/
+theorem zipRounds_fin : ∀ (fuel j : Nat),
+    ((zipRounds mk traces fuel j).fin = none →
+      roundAt traces (j + (zipRounds mk traces fuel j).out.length) = .error none) ∧
+    (∀ e, (zipRounds mk traces fuel j).fin = some e →
+      roundAt traces (j + (zipRounds mk traces fuel j).out.length) = .error (some e) ∨
+      (∃ result, roundAt traces (j + (zipRounds mk traces fuel j).out.length) = .ok result ∧ mk result = .error e) ∨
+      (zipRounds mk traces fuel j).out.length = fuel)
+  | 0, j => by simp [zipRounds]
+  | fuel + 1, j => by
+    simp only [zipRounds]
+    cases hr : roundAt traces j with
+    | error eo =>
+      cases eo with
+      | none => simp [hr]
+      | some e0 => simp [hr]
+    | ok result =>
+      simp only []
+      cases hm : mk result with
+      | error e0 =>
+        simp only [List.length_nil, Nat.add_zero, hr]
+        refine ⟨by simp, ?_⟩
+        intro e he
+        simp only [Option.some.injEq] at he
+        subst he
+        exact Or.inr (Or.inl ⟨result, rfl, hm⟩)
+      | ok o =>
+        obtain ⟨h1, h2⟩ := zipRounds_fin fuel (j + 1)
+        simp only [Trace.cons, List.length_cons]
+        have e : j + ((zipRounds mk traces fuel (j + 1)).out.length + 1) =
+            j + 1 + (zipRounds mk traces fuel (j + 1)).out.length := by omega
+        rw [e]
+        refine ⟨h1, ?_⟩
+        intro e' he'
+        rcases h2 e' he' with h | h | h
+        · exact Or.inl h
+        · exact Or.inr (Or.inl h)
+        · exact Or.inr (Or.inr (by omega))
+
+variable {dims : List Nat} (hs : NArr.HasShape dims traces) (hd : dims ≠ [])
+  (hne : ∃ p t, cellAt traces p = some t)
+include hs hd
+
+/-- **Values of `_MdSeqMap`**: the `i`-th value yielded is built from the array that holds every cell's
+`i`-th result in that cell's place. -/
+theorem mdSeqMapRun_out (i : Nat) (o : ο) (h : (mdSeqMapRun mk traces).out[i]? = some o) :
+    ∃ result, NArr.HasShape dims result ∧
+      (∀ p t, cellAt traces p = some t → ∃ r, t.out[i]? = some r ∧ cellAt result p = some r) ∧
+      mk result = .ok o := by
+  obtain ⟨result, hr, hm⟩ := zipRounds_out mk traces _ 0 i o h
+  rw [Nat.zero_add] at hr
+  obtain ⟨hsh, hc⟩ := roundAt_ok traces hs hd hr
+  exact ⟨result, hsh, hc, hm⟩
+
+/-- no more values than any cell yields -/
+theorem mdSeqMapRun_length_le (p : List Nat) (t : Trace ρ (Exc ε)) (ht : cellAt traces p = some t) :
+    (mdSeqMapRun mk traces).out.length ≤ t.out.length := by
+  cases hn : (mdSeqMapRun mk traces).out.length with
+  | zero => omega
+  | succ n =>
+    have hlt : n < (mdSeqMapRun mk traces).out.length := by omega
+    have hget : (mdSeqMapRun mk traces).out[n]? = some ((mdSeqMapRun mk traces).out[n]) :=
+      List.getElem?_eq_getElem hlt
+    obtain ⟨result, _, hc, _⟩ := mdSeqMapRun_out mk traces hs hd n _ hget
+    obtain ⟨r, hr, _⟩ := hc p t ht
+    have := (List.getElem?_eq_some_iff.1 hr).1
+    omega
+
+include hne
+
+/-- the fuel of the model never runs out when there is a cell -/
+theorem mdSeqMapRun_length_lt_fuel : (mdSeqMapRun mk traces).out.length < firstCellLen traces + 1 := by
+  obtain ⟨p, t, ht⟩ := hne
+  have hv : t ∈ NArr.values traces := (mem_values_iff traces t).2 ⟨p, ht⟩
+  cases hvs : NArr.values traces with
+  | nil => rw [hvs] at hv; simp at hv
+  | cons t0 rest =>
+    have h0 : t0 ∈ NArr.values traces := by rw [hvs]; simp
+    obtain ⟨p0, hp0⟩ := (mem_values_iff traces t0).1 h0
+    have := mdSeqMapRun_length_le mk traces hs hd p0 t0 hp0
+    simp only [firstCellLen, hvs]
+    omega
+
+/-- **End of `_MdSeqMap` by `StopIteration`**: the number of values yielded is the number of results of
+some cell whose generator ended normally (with `mdSeqMapRun_length_le`: the minimum over the cells). -/
+theorem mdSeqMapRun_stop (h : (mdSeqMapRun mk traces).fin = none) :
+    ∃ p t, cellAt traces p = some t ∧ t.out.length = (mdSeqMapRun mk traces).out.length ∧ t.fin = none := by
+  have h1 := (zipRounds_fin mk traces (firstCellLen traces + 1) 0).1 h
+  rw [Nat.zero_add] at h1
+  obtain ⟨p, t, ht, hnone, hfin⟩ := roundAt_error traces hs hd h1
+  have hle := mdSeqMapRun_length_le mk traces hs hd p t ht
+  have hge : t.out.length ≤ (mdSeqMapRun mk traces).out.length := by unfold mdSeqMapRun; simpa using hnone
+  exact ⟨p, t, ht, by unfold mdSeqMapRun at hle hge ⊢; omega, hfin⟩
+
+/-- **End of `_MdSeqMap` by an exception**: it is the exception of a cell's generator that had no further
+value (and that cell has the minimal number of results), or the exception of building the value `mk`. -/
+theorem mdSeqMapRun_raise (e : Exc ε) (h : (mdSeqMapRun mk traces).fin = some e) :
+    (∃ p t, cellAt traces p = some t ∧ t.out.length = (mdSeqMapRun mk traces).out.length ∧ t.fin = some e) ∨
+    (∃ result, NArr.HasShape dims result ∧
+      (∀ p t, cellAt traces p = some t →
+        ∃ r, t.out[(mdSeqMapRun mk traces).out.length]? = some r ∧ cellAt result p = some r) ∧
+      mk result = .error e) := by
+  have h1 := (zipRounds_fin mk traces (firstCellLen traces + 1) 0).2 e h
+  rw [Nat.zero_add] at h1
+  rcases h1 with h1 | ⟨result, hr, hm⟩ | h1
+  · obtain ⟨p, t, ht, hnone, hfin⟩ := roundAt_error traces hs hd h1
+    have hle := mdSeqMapRun_length_le mk traces hs hd p t ht
+    have hge : t.out.length ≤ (mdSeqMapRun mk traces).out.length := by unfold mdSeqMapRun; simpa using hnone
+    exact Or.inl ⟨p, t, ht, by unfold mdSeqMapRun at hle hge ⊢; omega, hfin⟩
+  · obtain ⟨hsh, hc⟩ := roundAt_ok traces hs hd hr
+    exact Or.inr ⟨result, hsh, hc, hm⟩
+  · have := mdSeqMapRun_length_lt_fuel mk traces hs hd hne
+    unfold mdSeqMapRun at this
+    omega
+
+end rounds
 
 end Lena.C11
